@@ -66,6 +66,7 @@ void generate(sim::Rng &r, uint64_t seed, const std::string &tier, sim::Plan &p)
     p.cfg["run_ms"] = r.pick((const long[]){0, 1, 15, 40, 40, 120, 700});
     p.cfg["exit_wait"] = r.below(2);
     if (part == 2) p.cfg["cycles"] = r.chance(400) ? r.range(2, 3) : 1;
+    if (r.chance(350)) p.cfg["fault_hup"] = 1;
     sim::draw_sched(seed, p);
   }
 }
@@ -376,9 +377,12 @@ void execute_main(const sim::Plan &plan, long part) {
 
   long run_ms = std::max(0L, std::min(5000L, plan.get("run_ms")));
   std::string wait = std::string("exit_wait_sec=") + (plan.get("exit_wait") ? "1" : "0");
-  const char *argv_c[] = {"c11_app", "-s", "log.stdout.enable=false", "-s", wait.c_str(), nullptr};
+  // cfg fault_hup: the configuration asks for "hang on a fatal signal" (is_fault_hup); no run raises such a signal, and the setting
+  // has no say in how a failed initialise or start is unwound
+  const char *argv_c[] = {"c11_app", "-s", "log.stdout.enable=false", "-s", wait.c_str(), "-s", "is_fault_hup=true", nullptr};
   char **argv = const_cast<char **>(argv_c);
-  int argc = 5;
+  int argc = plan.get("fault_hup") ? 7 : 5;
+  if (plan.get("fault_hup")) sim::probe("is_fault_hup_configured");
 
   // Start()/Stop() can be used again after a full cycle: every cycle builds a fresh tree (RegisterApps) and is judged on its own
   long cycles = part == 2 ? std::max(1L, std::min(3L, plan.get("cycles", 1))) : 1;
